@@ -193,9 +193,9 @@ def batches(records, max_next):
         for m, i in enumerate(range(0, len(nexts), max_next)):
             res.append(("g%d_next%d" % (n, m), p, {"next": nexts[i:i + max_next]}))
         compact = [r for r in rs if r["k"] in ("c2t", "t2c", "d2c")]
-        for m, i in enumerate(range(0, len(compact), 80)):
+        for m, i in enumerate(range(0, len(compact), 60)):
             g = {}
-            for r in compact[i:i + 80]:
+            for r in compact[i:i + 60]:
                 g.setdefault(r["k"], []).append(r)
             res.append(("g%d_compact%d" % (n, m), p, g))
         misc = {}
@@ -230,7 +230,13 @@ def judge(c, records, tier, tagcount, max_next=4, timeout=900, label=""):
 
     def work(bt):
         name, p, g = bt
-        return name, run_apalache(label + name, p, g, timeout)
+        try:
+            return name, run_apalache(label + name, p, g, timeout)
+        except V.ToolError as e:          # the machine is shared: one retry with twice the time before giving up (exit 2)
+            if "timed out" not in str(e):
+                raise
+            V.log("[C07] %s - retrying once" % e)
+            return name, run_apalache(label + name, p, g, 2 * timeout)
 
     with ThreadPoolExecutor(max_workers=2) as ex:     # the machine is shared: few solver processes at a time
         for name, res in ex.map(work, bs):
